@@ -715,13 +715,17 @@ class Table(Vector):
 			return Row(self, key)
 
 		if isinstance(key, Vector) and key.schema() is not None and key.schema().kind == bool and not key.schema().nullable:
-			assert (len(self) == len(key))
+			# (a real check, as for a vector: an assert vanishes under python -O)
+			if len(self) != len(key):
+				raise ValueError(f"Boolean mask length mismatch: {len(self)} != {len(key)}")
 			return Vector(tuple(x[key] for x in self._underlying),
 				dtype = self._dtype,
 				name=self._name
 			)
 		if isinstance(key, list) and {type(e) for e in key} == {bool}:
-			assert (len(self) == len(key))
+			# (a real check, as for a vector: an assert vanishes under python -O)
+			if len(self) != len(key):
+				raise ValueError(f"Boolean mask length mismatch: {len(self)} != {len(key)}")
 			return Vector(tuple(x[key] for x in self._underlying),
 				dtype = self._dtype,
 				name=self._name
